@@ -269,3 +269,17 @@ Proof.
     try reflexivity;
     try (destruct (beq method s_POST || beq method s_PUT); [reflexivity|]; destruct (spec_expect hs); reflexivity).
 Qed.
+
+(* read_http_body_to_file on a known length: exactly the next [len] bytes, or Truncated iff fewer are there *)
+Lemma body_to_file_known_exact len avail :
+  match body_to_file_known len avail with
+  | Some b => N.of_nat (length b) = len /\ exists rest, avail = b ++ rest
+  | None => N.of_nat (length avail) < len
+  end.
+Proof.
+  unfold body_to_file_known. destruct (N.of_nat (length avail) <? len) eqn:E.
+  - now apply N.ltb_lt in E.
+  - apply N.ltb_ge in E. split.
+    + rewrite firstn_length, Nat.min_l by lia. now rewrite N2Nat.id.
+    + exists (skipn (N.to_nat len) avail). now rewrite firstn_skipn.
+Qed.
